@@ -6,6 +6,7 @@ import Driver.Metrics
 import Driver.Retry
 import Driver.Embed
 import Driver.Linearize
+import Driver.Context
 
 namespace Driver
 
@@ -21,6 +22,7 @@ def dispatch (dom : String) (ops : Array String) : Array String :=
   | "retry" => Retry.runCase ops
   | "embed" => Embed.runCase ops
   | "linearize" => Linearize.runCase ops
+  | "context" => Context.runCase ops
   | _ => ops.map (fun _ => "unknown-domain")
 
 end Driver
